@@ -452,7 +452,7 @@ PollArgs == {[caller |-> cc[1], cred |-> cc[2], dc |-> d, slow |-> s] : cc \in C
 
 EndSessionArgs ==
   LET hints == {[kind |-> "none", id |-> "none"]} \cup [kind : {"valid", "expired", "multiaud", "futureiat", "noiat", "wrongkey", "wrongiss", "algnone"}, id : DOMAIN idts] IN
-  [hint : hints, client : {"", "cw", "cx", "cz"}, uri : {"", "plcw", "plcx", "evil", "plcwG", "ucwG", "plcxNear"}, state : {"", "ls1"}, host : IF cfg.dyn THEN {"A", "B"} ELSE {"A"}]
+  [hint : hints, client : {"", "cw", "cx", "cn", "cz"}, uri : {"", "plcw", "plcx", "evil", "plcwG", "ucwG", "plcxNear", "plcn", "plcnEvil"}, state : {"", "ls1"}, host : IF cfg.dyn THEN {"A", "B"} ELSE {"A"}]
 
 RefArgs ==
   LET none == [kind |-> "none", form |-> "none", id |-> "none", declared |-> "none"]
